@@ -1,12 +1,19 @@
 #!/bin/bash
+# Two builds of the same sources: g++ -O1 with asserts (the reference build) and clang++ -O2 -DNDEBUG (release build of
+# the other compiler: the list headers are macros and inline functions, so what the optimiser makes of them - folded
+# null tests, merged loads - is part of what a user gets).  Both run every sub-check.
 set -e
 . $MC/par.sh
-CF="-std=c++17 -O1 -g -fsanitize=address -fno-omit-frame-pointer -I$REPO -I$MC"
-par g++ -c $CF $VERIF/harness/c01/c01_lists.cpp -o $BUILD/h.o
-par g++ -c $CF $REPO/igris/container/dlist.cpp -o $BUILD/dlist.o
+CF="-std=c++17 -g -fsanitize=address -fno-omit-frame-pointer -I$REPO -I$MC"
+par g++ -c -O1 $CF $VERIF/harness/c01/c01_lists.cpp -o $BUILD/h.o
+par g++ -c -O1 $CF $REPO/igris/container/dlist.cpp -o $BUILD/dlist.o
+par clang++ -c -O2 -DNDEBUG $CF $VERIF/harness/c01/c01_lists.cpp -o $BUILD/h_clang.o
+par clang++ -c -O2 -DNDEBUG $CF $REPO/igris/container/dlist.cpp -o $BUILD/dlist_clang.o
 par g++ -std=c++17 -O2 -c -I$MC $MC/mc.cpp -o $BUILD/mc.o
 par gcc -c -O1 -I$REPO $REPO/igris/dprint/dprint_func_impl.c -o $BUILD/dprint.o
 par gcc -c -O1 -I$REPO $REPO/igris/dprint/dprint_stub.c -o $BUILD/dstub.o
 parwait
 g++ -fsanitize=address $BUILD/h.o $BUILD/dlist.o $BUILD/mc.o $BUILD/dprint.o $BUILD/dstub.o -o $BUILD/c01
+clang++ -fsanitize=address $BUILD/h_clang.o $BUILD/dlist_clang.o $BUILD/mc.o $BUILD/dprint.o $BUILD/dstub.o -o $BUILD/c01_clang
 echo "lists $BUILD/c01" > $BUILD/runs.txt
+echo "lists_clang_O2 $BUILD/c01_clang" >> $BUILD/runs.txt
